@@ -819,15 +819,47 @@ pub fn pow<Z: ZNum>(c: &Ctx<Z>) -> Expect<Z> {
         }
     }
 }
-/// greatest k with b^k <= x  (x >= 1, b >= 2)
+/// greatest k with b^k <= x  (x >= 1, b >= 2): binary search on k, each probe an exact power with
+/// early exit once it exceeds the bit length of x
 pub fn ilog_exact<Z: ZNum>(x: &Z, b: &Z) -> u64 {
-    let mut k = 0u64;
-    let mut p = b.clone();
-    while p <= *x {
-        k += 1;
-        p = p.zmul(b);
+    // b^k <= x  =>  k * (bitlen(b) - 1) < bitlen(x)
+    let bl = x.bit_len();
+    let step = b.bit_len() - 1; // >= 1 because b >= 2
+    let mut lo = 0u64;
+    let mut hi = bl / step + 1;
+    let le = |k: u64| -> bool {
+        // b^k <= x ?
+        let mut acc = Z::zi(1);
+        let mut base = b.clone();
+        let mut e = k;
+        loop {
+            if e & 1 == 1 {
+                acc = acc.zmul(&base);
+                if acc.bit_len() > bl {
+                    return false;
+                }
+            }
+            e >>= 1;
+            if e == 0 {
+                break;
+            }
+            base = base.zmul(&base);
+            if base.bit_len() > bl + 1 {
+                // any further multiplication by base exceeds x
+                return false;
+            }
+        }
+        acc <= *x
+    };
+    while lo < hi {
+        let mid = lo + (hi - lo + 1) / 2;
+        if le(mid) {
+            lo = mid;
+        } else {
+            hi = mid - 1;
+        }
     }
-    k
+    lo
 }
 fn log_defined<Z: ZNum>(c: &Ctx<Z>, base: &Z) -> bool {
     !c.a().is_neg() && !c.a().is_zero() && *base >= Z::zi(2)
